@@ -298,6 +298,10 @@ func (w *World) abort(t *simcore.Task, wt *WTxn) {
 				if sn.states[ti] != nil {
 					w.checkGraveyardBound("C02", rtxn, ti, sn.states[ti])
 				}
+				// retained deletions and delete trackers as if the transaction had never run
+				if !w.trackersAsModel(rtxn, ti, fmt.Sprintf("after Abort of T%d", wt.id)) {
+					return
+				}
 			}
 		}
 	}
@@ -333,10 +337,11 @@ const (
 	OpDoneInit // mark an initializer done
 	OpUnlocked // write through a table the transaction does not hold
 	OpReadBack // query battery through the transaction
+	OpBurst    // many inserts or deletes of neighbouring keys in one go
 	numOps
 )
 
-var opNames = [...]string{"Insert", "InsertWatch", "Modify", "Delete", "DeleteAll", "CompareAndSwap", "CompareAndDelete", "Changes", "RegisterInitializer", "MarkDone", "UnlockedWrite", "ReadBack"}
+var opNames = [...]string{"Insert", "InsertWatch", "Modify", "Delete", "DeleteAll", "CompareAndSwap", "CompareAndDelete", "Changes", "RegisterInitializer", "MarkDone", "UnlockedWrite", "ReadBack", "Burst"}
 
 // genObj draws an object for table tc given the transaction's view st.
 func (w *World) genObj(tc *TableCtx, st *TableState, txnID int) *Obj {
@@ -765,6 +770,73 @@ func (w *World) writeOp(t *simcore.Task, wt *WTxn) bool {
 
 	case OpUnlocked:
 		return w.unlockedWrite(t, wt)
+
+	case OpBurst:
+		// a run of neighbouring keys of the universe: drives radix nodes across their size thresholds
+		n := 4 + c.Choose(36)
+		start := c.Choose(len(tc.IDs))
+		del := c.Choose(3) == 0
+		done := 0
+		for i := 0; i < n; i++ {
+			id := tc.IDs[(start+i)%len(tc.IDs)]
+			old, had := st.Objs[id]
+			before := st.Rev
+			if del {
+				if !had {
+					continue
+				}
+				var gotOld *Obj
+				var gotHad bool
+				var gotErr error
+				if !w.guard("C03", "Delete (burst)", func() { gotOld, gotHad, gotErr = tc.T.Delete(wt.txn, &Obj{ID: id}) }) {
+					return false
+				}
+				if !w.cmpOld(wt, fmt.Sprintf("Delete(%s,%q) (burst)", tc.M.Name, id), gotOld, gotHad, gotErr, old.O, true, "nil") {
+					return false
+				}
+				rev, ok := w.checkRev(wt, ti, true, "Delete (burst)")
+				if !ok {
+					return false
+				}
+				wt.applyDelete(ti, id, before, rev)
+			} else {
+				o := w.genObj(tc, st, wt.id)
+				o.ID = id
+				if o.HasU {
+					o.U = o.U[:1] + id
+				}
+				if o.LU != nil {
+					// keep the unique LPM index unique under the changed primary key
+					for oid, mo := range st.Objs {
+						if oid != id && mo.O.LU != nil && mo.O.LU.masked() == o.LU.masked() {
+							o.LU = nil
+							break
+						}
+					}
+				}
+				var gotOld *Obj
+				var gotHad bool
+				var gotErr error
+				if !w.guard("C03", "Insert (burst)", func() { gotOld, gotHad, gotErr = tc.T.Insert(wt.txn, o) }) {
+					return false
+				}
+				if !w.cmpOld(wt, fmt.Sprintf("Insert(%s,%v) (burst)", tc.M.Name, o), gotOld, gotHad, gotErr, old.O, had, "nil") {
+					return false
+				}
+				rev, ok := w.checkRev(wt, ti, true, "Insert (burst)")
+				if !ok {
+					return false
+				}
+				wt.applyInsert(ti, o, rev)
+			}
+			done++
+		}
+		w.S.Logf("T%d burst on %s: %d %s starting at key #%d", wt.id, tc.M.Name, done, map[bool]string{true: "deletes", false: "inserts"}[del], start)
+		w.probe("burst")
+		if done > 0 {
+			w.progress++
+		}
+		return w.checkTable("C04", wt.txn, tc, st, 4, "T"+fmt.Sprint(wt.id)+" after burst")
 
 	case OpReadBack:
 		w.probe("readback-in-txn")
